@@ -136,6 +136,9 @@ func routingCase(t *T, params bool) {
 						continue
 					}
 				}
+				if rep == 0 {
+					t.Tracef("Match(%q,%q): normalised %q, %d routes qualify, model selects %s, router returned %s params {%s}", method, path, npath, nq, rname(tb, want), rname(tb, got), fmtParams(copyParams(ps)))
+				}
 				if !params {
 					t.Count("probes.total", 1)
 					if nq >= 2 {
